@@ -9,6 +9,7 @@
     the precondition itself ("inside the claim") is compared with the Coq predicate inside_claim_b of
     Spec/Homogeneous.v (op 19), which the theorem C19_variant_roundtrip is stated over.
 """
+import zlib
 import random
 import re
 
@@ -403,6 +404,17 @@ def evaluate(ctx, cases, res):
         if c['kind'] != 'sig':
             continue
         sig = c['sig']
+        if zlib.crc32(sig.encode('latin-1', 'replace')) % 2:      # decided by the case itself, so that a replayed case behaves alike
+            # an earlier consumer of the same signature that stops after the first piece (a failed encode, zip() with
+            # too few values): what the split returns afterwards must not depend on it
+            try:
+                with common.time_limit(5):
+                    g = marshal.genCompleteTypes(sig)
+                    next(g, None)
+                    if hasattr(g, 'close'):
+                        g.close()
+            except (Exception, common.Timeout):
+                pass
         try:
             with common.time_limit(5):
                 impl = ('ok', common.take(marshal.genCompleteTypes(sig), len(sig) + 2))
